@@ -88,6 +88,9 @@ impl Point {
     }
 
     pub(crate) fn from_byte(b: &[u8]) -> Sm2Result<Point> {
+        if b.is_empty() {
+            return Err(Sm2Error::InvalidPublic);
+        }
         let flag = b[0];
         // Compressed Point
         if flag == 0x02 || flag == 0x03 {
